@@ -12,8 +12,9 @@ NAMES = ["x", "y", "z", "w", "t"]
 
 CONST_POOL = [0, 1, -1, 2, -2, 3, 0.5, -0.5, 0.25, 4, 8, math.e, 1.0, 2.0, 0.0, -1.0, 3.0, 10, -3, 1.5]
 N_POOL = [1, 2, 3, 4, 5, 6, 7, 8, 9, 12, 2.0, 3.0, 1.0]
-EXP_BASES = [math.e, 2, 10, 3, 0.5, 0.1, 1, 2.0, 1.0, 4, 0.25]
-LOG_BASES = [math.e, 2, 10, 3, 0.5, 0.1, 2.0, 4, 0.25]
+E_NEAR = [math.nextafter(math.e, 3.0), math.nextafter(math.e, 0.0), 2.718281828, 2.71828]
+EXP_BASES = [math.e, 2, 10, 3, 0.5, 0.1, 1, 2.0, 1.0, 4, 0.25] + E_NEAR + [math.nextafter(1.0, 2.0), math.nextafter(1.0, 0.0)]
+LOG_BASES = [math.e, 2, 10, 3, 0.5, 0.1, 2.0, 4, 0.25] + E_NEAR + [math.nextafter(1.0, 2.0), math.nextafter(1.0, 0.0)]
 
 
 def small_floats(lo=-8.0, hi=8.0):
